@@ -12,13 +12,16 @@ MANIFEST = dict(
          "graph: C15_safety (in the start/finish log every launch is preceded by the successful finish of every "
          "job of every predecessor node), C15_at_most_once (no job is launched twice), C15_all_run (a run without "
          "failures that ends by itself has launched every job exactly once and every job finished successfully), "
-         "C15_sync_* (same for the sequential loop). The model is tied to the code on every run by a fake "
+         "C15_sync_* (same for the sequential loop), C15_every_job_exactly_once / C15_sync_every_job_exactly_once "
+         "(termination included: no failing job, every node >= 1 job, max_concurrent >= 1 => for every oracle the "
+         "loop ends by itself within |jobs|+1 iterations with every job launched exactly once and finished "
+         "successfully). The model is tied to the code on every run by a fake "
          "asynchronous Worker that dictates completion order / failures / lock-file visibility and by comparing, "
          "inside Coq, every poll (returned tasks and all six status sets of every node), every launch list, the "
          "whole start/finish log, the error names and the outputs with run_async/run_sync on the same oracle.",
     note="Trusted: Coq kernel + vm_compute; the hand-written model; the world is frozen during one poll; job "
-         "identity = (node, state index) instead of checksum; asyncio and the fake worker. Termination of the "
-         "loop is not part of these theorems (see C18).",
+         "identity = (node, state index) instead of checksum; asyncio and the fake worker. Termination is proved "
+         "only for runs without failing jobs (with failures: C14 / C18).",
     technique="Coq proof by loop invariant over an oracle-driven model + differential execution under a controlled fake worker",
     design="§8 Group D / C15",
 )
